@@ -97,9 +97,12 @@ Definition exchange (w : world) (pinned : option nat) (a : nat) (np : bool) (r :
 (* ---------------------------------------------------------------------------------- *)
 (* Syncer.fetch                                                                        *)
 
-Record fixes := { fx_nopath : bool; fx_rotate : bool; fx_announce : bool }.
-Definition fx_fixed := {| fx_nopath := true; fx_rotate := true; fx_announce := true |}.
-Definition fx_v0 := {| fx_nopath := false; fx_rotate := false; fx_announce := false |}.
+(* [fx_slot]: the slot of the async-sync semaphore (MaxAsyncConcurrency) is given back on every
+   path (the deferred release in watch); false = a variant that gives it back only when the
+   sync succeeded.  The code before the C04 fixes had the deferred release too. *)
+Record fixes := { fx_nopath : bool; fx_rotate : bool; fx_announce : bool; fx_slot : bool }.
+Definition fx_fixed := {| fx_nopath := true; fx_rotate := true; fx_announce := true; fx_slot := true |}.
+Definition fx_v0 := {| fx_nopath := false; fx_rotate := false; fx_announce := false; fx_slot := true |}.
 
 Record syncer := {
   sy_addrs : list nat;      (* peerInfo.Addrs, for SameAddrs *)
@@ -257,7 +260,8 @@ Inductive result :=
 | RAnnDropped          (* duplicate filter *)
 | RAnnSkipped          (* head = latest: nothing to do *)
 | RAnnOk | RAnnErr
-| RAnnSilent.          (* v0: the syncer could not be made: no event, CID stays cached *)
+| RAnnSilent           (* v0: the syncer could not be made: no event, CID stays cached *)
+| RAnnBlocked.         (* every slot of the async-sync semaphore is taken: the sync never starts *)
 
 Record obs := {
   o_res : result;
@@ -271,11 +275,15 @@ Record sstate := {
   s_store : list nat;
   s_syncer : option syncer;
   s_cache : list nat;           (* announce duplicate filter *)
-  s_disc : bool                 (* the publisher's protocol map is cached by the libp2phttp client *)
+  s_disc : bool;                (* the publisher's protocol map is cached by the libp2phttp client *)
+  s_slots : nat;                (* slots of the async-sync semaphore in use between syncs *)
+  s_max : nat                   (* MaxAsyncConcurrency; 0 = no limit (no semaphore) *)
 }.
 
-Definition init (store0 : list nat) (latest0 : nat) : sstate :=
-  {| s_latest := latest0; s_store := store0; s_syncer := None; s_cache := []; s_disc := false |}.
+Definition init_max (max : nat) (store0 : list nat) (latest0 : nat) : sstate :=
+  {| s_latest := latest0; s_store := store0; s_syncer := None; s_cache := []; s_disc := false;
+     s_slots := 0; s_max := max |}.
+Definition init := init_max 0.
 
 Fixpoint insert (a : nat) (l : list nat) : list nat :=
   match l with [] => [a] | b :: l' => if a <=? b then a :: l else b :: insert a l' end.
@@ -312,7 +320,7 @@ Definition make_syncer (w : world) (st : sstate) (addrs : list nat) (discfail : 
     let '(osy, c) := new_syncer w l discfail (s_disc st) in
     (osy, {| s_latest := s_latest st; s_store := s_store st;
              s_syncer := match osy with Some _ => osy | None => s_syncer st end;
-             s_cache := s_cache st; s_disc := c |}) in
+             s_cache := s_cache st; s_disc := c; s_slots := s_slots st; s_max := s_max st |}) in
   match s_syncer st with
   | None => create addrs
   | Some sy =>
@@ -324,10 +332,21 @@ Definition make_syncer (w : world) (st : sstate) (addrs : list nat) (discfail : 
   end.
 
 Definition with_sync (st : sstate) (sy : syncer) (store : list nat) (latest : nat) (cache : list nat) : sstate :=
-  {| s_latest := latest; s_store := store; s_syncer := Some sy; s_cache := cache; s_disc := s_disc st |}.
+  {| s_latest := latest; s_store := store; s_syncer := Some sy; s_cache := cache; s_disc := s_disc st;
+     s_slots := s_slots st; s_max := s_max st |}.
 
 Definition set_cache (st : sstate) (cache : list nat) : sstate :=
-  {| s_latest := s_latest st; s_store := s_store st; s_syncer := s_syncer st; s_cache := cache; s_disc := s_disc st |}.
+  {| s_latest := s_latest st; s_store := s_store st; s_syncer := s_syncer st; s_cache := cache; s_disc := s_disc st;
+     s_slots := s_slots st; s_max := s_max st |}.
+
+(* the slot of a sync that failed inside handle: given back, or (variant) kept for good *)
+Definition after_failed_handle (fx : fixes) (st : sstate) : sstate :=
+  if fx_slot fx then st
+  else {| s_latest := s_latest st; s_store := s_store st; s_syncer := s_syncer st; s_cache := s_cache st;
+          s_disc := s_disc st; s_slots := S (s_slots st); s_max := s_max st |}.
+
+(* no slot is free *)
+Definition blocked (st : sstate) : bool := (0 <? s_max st) && (s_max st <=? s_slots st).
 
 Definition remove (h : nat) (l : list nat) : list nat := filter (fun x => negb (x =? h)) l.
 
@@ -365,7 +384,8 @@ Definition sync_announce (fx : fixes) (w : world) (seg : nat) (o : op) (st : sst
   if mem h (s_cache st) then (st, mk_obs RAnnDropped [] (net0 o) [])
   else
     let st0 := set_cache st (h :: s_cache st) in
-    if s_latest st0 =? h then (st0, mk_obs RAnnSkipped [] (net0 o) [])
+    if blocked st0 then (st0, mk_obs RAnnBlocked [] (net0 o) [])
+    else if s_latest st0 =? h then (st0, mk_obs RAnnSkipped [] (net0 o) [])
     else
       match make_syncer w st0 (op_addrs o) (op_discfail o) with
       | (None, st1) =>
@@ -378,7 +398,7 @@ Definition sync_announce (fx : fixes) (w : world) (seg : nat) (o : op) (st : sst
             (with_sync st1 (h_sy r) (h_store r) h (s_cache st1),
              mk_obs RAnnOk [EvOk h (h_count r)] (h_net r) (h_hooks r))
           else
-            (with_sync st1 (h_sy r) (h_store r) (s_latest st1) (remove h (s_cache st1)),
+            (after_failed_handle fx (with_sync st1 (h_sy r) (h_store r) (s_latest st1) (remove h (s_cache st1))),
              mk_obs RAnnErr [EvErr h (h_count r)] (h_net r) (h_hooks r))
       end.
 
@@ -404,7 +424,7 @@ Definition seen_of (r : result) : seen :=
   match r with
   | RExpOk h => SeenOk h | RExpErr => SeenErr
   | RAnnOk | RAnnErr => SeenEvent
-  | RAnnDropped | RAnnSkipped | RAnnSilent => SeenNone
+  | RAnnDropped | RAnnSkipped | RAnnSilent | RAnnBlocked => SeenNone
   end.
 
 Definition seen_eqb (a b : seen) : bool :=
@@ -450,20 +470,20 @@ Record seen_obs := {
                                 (the next one was already queued): they are not compared *)
 }.
 
-Definition obs_ok (st' : sstate) (o : obs) (s : seen_obs) : bool :=
+Definition obs_ok (nohook : bool) (st' : sstate) (o : obs) (s : seen_obs) : bool :=
   seen_eqb (seen_of (o_res o)) (so_res s)
   && list_match event_eqb (o_events o) (so_events s)
   && (so_partial s || (s_latest st' =? so_latest s))
   && (so_partial s || list_nat_eqb (sort (s_store st')) (so_store s))
   && list_match req_matches (o_log o) (so_log s)
-  && list_nat_eqb (o_hooks o) (so_hooks s).
+  && (nohook || list_nat_eqb (o_hooks o) (so_hooks s)).
 
-Fixpoint hist_ok (fx : fixes) (w : world) (seg : nat) (st : sstate) (h : list (op * seen_obs)) : bool :=
+Fixpoint hist_ok (fx : fixes) (nohook : bool) (w : world) (seg : nat) (st : sstate) (h : list (op * seen_obs)) : bool :=
   match h with
   | [] => true
   | (o, s) :: rest =>
     let '(st', ob) := step fx w seg o st in
-    obs_ok st' ob s && hist_ok fx w seg st' rest
+    obs_ok nohook st' ob s && hist_ok fx nohook w seg st' rest
   end.
 
 Record hcase := {
@@ -472,9 +492,12 @@ Record hcase := {
   hc_seg : nat;
   hc_store0 : list nat;
   hc_latest0 : nat;
-  hc_hist : list (op * seen_obs)
+  hc_hist : list (op * seen_obs);
+  hc_max : nat;              (* MaxAsyncConcurrency (0 = option not given) *)
+  hc_nohook : bool           (* no BlockHook: segmentation is off whatever the segment depth
+                                (handle needs a hook to segment) and hook calls cannot be seen *)
 }.
 
 Definition hist_case_ok (c : hcase) : bool :=
-  hist_ok (hc_fx c) (hc_world c) (hc_seg c)
-          (init (hc_store0 c) (hc_latest0 c)) (hc_hist c).
+  hist_ok (hc_fx c) (hc_nohook c) (hc_world c) (if hc_nohook c then 0 else hc_seg c)
+          (init_max (hc_max c) (hc_store0 c) (hc_latest0 c)) (hc_hist c).
